@@ -108,6 +108,7 @@ class Engine(FsMixin, ExprMixin, StmtMixin, CallMixin, SpecMixin, BuiltinMixin, 
         self.dropped = set()
         self.comp_info = {}
         self.glob_results = []
+        self.seq_facts = {}     # name of a sequence constant -> [fn(k) -> z3 Bool]: element-wise facts, instantiated on access
         self.sorted_info = {}
         self.nstmts = self.nfeas = self.nawaits = 0
         self.entry_state = None
